@@ -163,6 +163,9 @@ def table_params(prefix, rows, slen=2, krange=None, irange=None, edomain=None, p
             elif code == 'z':
                 cells.append("'z'")
                 continue
+            elif code == 'E':
+                cells.append("''")      # the empty string (constant)
+                continue
             elif code == 'e':
                 # int enumerated (by the solver) over a small finite domain and made concrete per path
                 params.append((name, 'int'))
